@@ -41,3 +41,9 @@ package expression
 //@   # "Narrowing truncates": a target narrower than its register needs more than the register change
 //@   ensures SpecInt(from.Kind) && SpecInt(to.Kind) && SpecBits(to.Kind) < 32 && SpecBits(to.Kind) < SpecBits(from.Kind) ==> wasm.SpecEmitted[ctx.Writer] > old(wasm.SpecEmitted[ctx.Writer]) + __ite(SpecBits(from.Kind) == 64, 1, 0)
 //@   modifies wasm.SpecEmitted, wasm.SpecLastOp
+
+//@ # an expression leaves the block nesting as it found it (its own if/else/end are balanced):
+//@ # assumed, not proved (the expression compiler is outside the subset)
+//@ trusted func Compile[T antlr.ParserRuleContext](ctx context.Context[T]) (t types.Type, err error)
+//@   ensures err == nil ==> (forall w *wasm.Writer :: wasm.SpecOpen[w] == old(wasm.SpecOpen[w]))
+//@   modifies wasm.SpecOpen
